@@ -205,3 +205,171 @@ pub fn run(a: &Args, out: &mut Out) {
     let path = out.path.clone();
     if a.focus == "G2" { run_g::<G2>(a, &format!("{}.result.json", path)) } else { run_g::<G1>(a, &format!("{}.result.json", path)) }
 }
+
+// ------------------------------------------------------------------------------------------------ SymPair
+struct GtTable {
+    enc2k: HashMap<Vec<u8>, i64>,
+}
+fn load_gt_table(path: &str) -> GtTable {
+    let v: Value = serde_json::from_str(&std::fs::read_to_string(path).expect("table")).expect("json");
+    let mut t = GtTable { enc2k: HashMap::new() };
+    for row in v.as_array().unwrap() {
+        t.enc2k.insert(unb(&row["gt"]), row["k"].as_i64().unwrap());
+    }
+    t
+}
+fn fr_of_i64(k: i64) -> Fr {
+    let mut v = [0u8; 32];
+    v[24..].copy_from_slice(&(k.unsigned_abs()).to_be_bytes());
+    let f = Fr::from_slice(&v).unwrap();
+    if k < 0 { -f } else { f }
+}
+const NONE: i64 = 1000;
+
+#[derive(Clone)]
+struct PS {
+    p: G1,
+    q: G2,
+    h: Option<(G2Prepared, i64)>,
+    g: Option<Gt>,
+}
+
+fn ps_alpha(t1: &Table, t2: &Table, tg: &GtTable, s: &PS) -> (Value, bool) {
+    let (kp, tp) = alpha(t1, &s.p);
+    let (kq, tq) = alpha(t2, &s.q);
+    let mut ok = kp.is_some() && kq.is_some();
+    let g = match &s.g {
+        None => NONE,
+        Some(x) => match tg.enc2k.get(&x.to_slice().to_vec()) {
+            Some(k) => *k,
+            None => { ok = false; 9999 }
+        },
+    };
+    let h = s.h.as_ref().map(|x| x.1).unwrap_or(NONE);
+    (json!({"p": [kp.unwrap_or(9999), tp], "q": [kq.unwrap_or(9999), tq], "h": h, "g": g}), ok)
+}
+
+fn ps_exec(rng: &mut StdRng, t2: &Table, s: &mut PS, act: &str, args: &Value) {
+    let which = args[0].as_str().unwrap_or("");
+    macro_rules! on {
+        ($f1:expr, $f2:expr) => {
+            if which == "p" { s.p = $f1(s.p); } else { s.q = $f2(s.q); }
+        };
+    }
+    match act {
+        "gen" => on!(|_| G1::gen(), |_| G2::gen()),
+        "zero" => on!(|_| <G1 as Grp>::zero(), |_| <G2 as Grp>::zero()),
+        "addgen" => on!(|x: G1| x + G1::gen(), |x: G2| x + G2::gen()),
+        "subgen" => on!(|x: G1| x - G1::gen(), |x: G2| x - G2::gen()),
+        "neg" => on!(|x: G1| -x, |x: G2| -x),
+        "selfsub" => on!(|x: G1| x - x, |x: G2| x - x),
+        "mul" => { let k = scalar(args[1].as_i64().unwrap()); on!(|x: G1| x * k, |x: G2| x * k) }
+        "rescale" => { if which == "p" { let x = s.p; s.p = G1::rep(rng, x, "S"); } else { let x = s.q; s.q = G2::rep(rng, x, "S"); } }
+        "normalize" => { if which == "p" { s.p.normalize(); } else { s.q.normalize(); } }
+        "pair" => { s.g = Some(crate::s_pair::pair_by(args[0].as_str().unwrap(), s.p, s.q)); }
+        "prepare" => {
+            // the logarithm captured with the prepared value is the one alpha reads off q now (the prepared value is opaque)
+            let (kq, _) = alpha(t2, &s.q);
+            s.h = Some((G2Prepared::from(s.q), kq.unwrap_or(9999)));
+        }
+        "preppair" => {
+            let (pr, _) = s.h.as_ref().unwrap();
+            let via_clone = args[0].as_bool().unwrap_or(false);
+            s.g = Some(if via_clone { pr.clone().pairing(&s.p) } else { pr.pairing(&s.p) });
+        }
+        "gtsquare" => { let x = s.g.unwrap(); s.g = Some(x * x); }
+        "gtinv" => { s.g = s.g.unwrap().inverse(); }
+        "gtpow" => { s.g = Some(s.g.unwrap().pow(scalar(args[0].as_i64().unwrap()))); }
+        "gtmulpair" => { s.g = Some(s.g.unwrap() * pairing(s.p, s.q)); }
+        _ => unreachable!("{}", act),
+    }
+}
+
+pub fn run_pair(a: &Args, out: &mut Out) {
+    let (t1, t2, tg) = (load_table(&a.table, "G1"), load_table(&a.table, "G2"), load_gt_table(&a.table));
+    let mut rng = rng_from(a.seed, "sympair");
+    let txt = std::fs::read_to_string(&a.input).expect("--in transitions");
+    let mut succ: BTreeMap<String, BTreeMap<String, (Value, BTreeSet<String>)>> = BTreeMap::new();
+    let mut ntrans = 0u64;
+    for line in txt.lines() {
+        if line.trim().is_empty() { continue; }
+        let t: Value = serde_json::from_str(line).expect("transition json");
+        ntrans += 1;
+        let e = succ.entry(t["pre"].to_string()).or_default().entry(json!([t["act"], t["args"]]).to_string()).or_insert((json!([t["act"], t["args"]]), BTreeSet::new()));
+        e.1.insert(t["post"].to_string());
+    }
+    let mut mism: Vec<Value> = vec![];
+    let g0 = pairing(G1::gen(), G2::gen());
+    let mut step = |s: &PS, pre: &str, actv: &Value, posts: &BTreeSet<String>, mode: &str, path: &Vec<Value>, rng: &mut StdRng, mism: &mut Vec<Value>| -> Option<(String, PS)> {
+        let r = std::panic::catch_unwind(std::panic::AssertUnwindSafe(|| {
+            let mut s2 = s.clone();
+            ps_exec(rng, &t2, &mut s2, actv[0].as_str().unwrap(), &actv[1]);
+            s2
+        }));
+        match r {
+            Err(_) => { mism.push(json!({"mode": mode, "pre": pre, "act": actv, "why": "panic", "path": path})); None }
+            Ok(s2) => {
+                let (post, known) = ps_alpha(&t1, &t2, &tg, &s2);
+                let pk = post.to_string();
+                if !known || !posts.contains(&pk) {
+                    mism.push(json!({"mode": mode, "pre": pre, "act": actv, "expected_posts": posts.iter().collect::<Vec<_>>(), "observed_post": post, "why": "mismatch", "path": path}));
+                    None
+                } else { Some((pk, s2)) }
+            }
+        }
+    };
+    // ---- constructive
+    let mut executed = 0u64;
+    if a.mode != "walk" {
+        for (pre, acts) in succ.iter() {
+            let pv: Value = serde_json::from_str(pre).unwrap();
+            for (_k, (actv, posts)) in acts.iter() {
+                let p = build::<G1>(&mut rng, &t1, pv["p"][0].as_i64().unwrap(), pv["p"][1].as_str().unwrap());
+                let q = build::<G2>(&mut rng, &t2, pv["q"][0].as_i64().unwrap(), pv["q"][1].as_str().unwrap());
+                let hk = pv["h"].as_i64().unwrap();
+                let h = if hk == NONE { None } else {
+                    let tag = if hk == 0 { ["Z0", "ZN"][(executed % 2) as usize] } else { ["A", "J"][(executed % 2) as usize] };
+                    Some((G2Prepared::from(build::<G2>(&mut rng, &t2, hk, tag)), hk))
+                };
+                let gk = pv["g"].as_i64().unwrap();
+                let g = if gk == NONE { None } else { Some(g0.pow(fr_of_i64(gk))) };
+                let s = PS { p, q, h, g };
+                let (chk, ok) = ps_alpha(&t1, &t2, &tg, &s);
+                if !ok || chk.to_string() != *pre {
+                    mism.push(json!({"mode": "construct", "pre": pre, "built": chk, "why": "operand-construction"}));
+                    continue;
+                }
+                executed += 1;
+                step(&s, pre, actv, posts, "constructive", &vec![], &mut rng, &mut mism);
+            }
+        }
+    }
+    // ---- walk with real histories
+    let init = PS { p: G1::gen(), q: G2::gen(), h: None, g: None };
+    let (ik, _) = ps_alpha(&t1, &t2, &tg, &init);
+    let mut seen: BTreeSet<String> = BTreeSet::new();
+    let mut queue: VecDeque<(String, PS, Vec<Value>)> = VecDeque::new();
+    seen.insert(ik.to_string());
+    queue.push_back((ik.to_string(), init, vec![]));
+    let mut walked = 0u64;
+    while let Some((sk, s, path)) = queue.pop_front() {
+        if a.mode == "constructive" { break; }
+        let acts = match succ.get(&sk) { Some(x) => x, None => { mism.push(json!({"mode": "walk", "pre": sk, "why": "state-not-in-spec", "path": path})); continue; } };
+        for (_k, (actv, posts)) in acts.iter() {
+            walked += 1;
+            if let Some((pk, s2)) = step(&s, &sk, actv, posts, "walk", &path, &mut rng, &mut mism) {
+                if !seen.contains(&pk) {
+                    seen.insert(pk.clone());
+                    let mut p2 = path.clone();
+                    p2.push(actv.clone());
+                    queue.push_back((pk, s2, p2));
+                }
+            }
+        }
+    }
+    let unreached = succ.keys().filter(|k| !seen.contains(*k)).count();
+    let res = json!({"group": "pair", "spec_transitions": ntrans, "spec_states": succ.len(), "constructive_executed": executed, "walk_executed": walked,
+                     "walk_states_reached": seen.len(), "states_only_constructive": unreached, "mismatches": mism.len(),
+                     "first_mismatches": mism.iter().take(20).collect::<Vec<_>>()});
+    std::fs::write(format!("{}.result.json", out.path), res.to_string()).unwrap();
+}
